@@ -15,8 +15,10 @@ import (
 	"net/http/httptest"
 	"strings"
 	"sync"
+	"sync/atomic"
 	"testing"
 	"testing/synctest"
+	"time"
 
 	"github.com/ipfs/go-cid"
 	"github.com/ipld/go-ipld-prime"
@@ -697,15 +699,39 @@ func (w *World) NewSubscriber(opts ...dagsync.Option) *dagsync.Subscriber {
 	return s
 }
 
-// Close shuts everything down.
+// CloseHung is set when the subscriber's Close did not return within an hour
+// of virtual time during World.Close.
+var CloseHung atomic.Int64
+
+// Close shuts everything down. It must never hang: a Subscriber.Close that
+// does not return (a goroutine of the library died with a wait-group count
+// outstanding, a lock was left held) is counted in CloseHung, and the periodic
+// sweeper of the subscriber's own address book is then stopped directly, since
+// while a ticker runs in the bubble virtual time never rests and the bubble can
+// never end. Call inside a bubble.
 func (w *World) Close() {
 	if w.Sub != nil {
-		w.Sub.Close()
+		done := make(chan struct{})
+		go func() {
+			defer close(done)
+			defer func() { recover() }()
+			w.Sub.Close()
+		}()
+		t := time.NewTimer(time.Hour)
+		select {
+		case <-done:
+			t.Stop()
+		case <-t.C:
+			CloseHung.Add(1)
+			func() {
+				defer func() { recover() }()
+				if ps := w.Sub.HttpPeerStore(); ps != nil {
+					ps.Close()
+				}
+			}()
+		}
 	}
-	for _, p := range w.Pubs {
-		p.stop()
-	}
-	w.restore()
+	w.CloseRest()
 }
 
 // CloseRest shuts down everything but the subscriber (publishers, network).
